@@ -37,7 +37,9 @@ RULE = ("fun stream: vectors of 12-16 components (boundary type x lower/upper fi
         "entries and unused samplers), optional mask, samples j/64, j/4, 4j (|j| <= 16); a request sequence of 1-3 points "
         "inside the bounds (the configured initial values or other points, earlier points revisited), each asked as "
         "function+gradient in one call, function then gradient from the cached function values, or gradient only; optionally "
-        "a VariableScaler (power-of-two scales, dyadic offsets) or a dict round trip of the validated configuration; "
+        "a VariableScaler (power-of-two scales, dyadic offsets) or a dict round trip of the validated configuration; in 30% "
+        "the gradient section is a GradientConfig instance the caller already used for another EnOptConfig with other bound "
+        "ranges / another scaler (own magnitudes required, instance unchanged); masks written as booleans or 0/1 integers; "
         "relative perturbations with an infinite bound -- on a free or on a FIXED (masked-out) variable -- and arrays of a "
         "wrong size (rejected). Non-trivial = some component's "
         "pre-boundary value lies outside its bounds (fun) / some row sent to the evaluator differs from the point (eval; "
@@ -218,6 +220,11 @@ def _eval_case(rng, full=False, force_reject=False, force_shape=False, force_sca
     return {"kind": "eval", "exact": not full, "x": x, "lbs": lbs, "ubs": ubs, "bts": bts, "pts": pts, "ms": ms,
             "gs": gs, "mask": mask, "R": R, "P": P, "scripts": scripts, "calls": calls, "scaler": scaler,
             "revalidate": scaler is None and rng.random() < 0.25,
+            "mask_repr": rng.choice(["bool", "int", "ndarray_int"]),
+            # the gradient section is handed over as a GradientConfig INSTANCE that the caller has already used for another
+            # EnOptConfig with other bound ranges (and, sometimes, another scaler); each configuration must get the
+            # magnitudes of its OWN ranges and the caller's instance must stay as written
+            "shared_gradient": rng.random() < 0.3,
             "weights": [rng.randint(1, 4) / 4 for _ in range(R)]}
 
 
@@ -317,7 +324,10 @@ def _run_eval(case):
         "samplers": [{"method": "verif/scripted", "options": {"script": s}} for s in case["scripts"]],
     }
     if case["mask"] is not None:
-        cfg_dict["variables"]["mask"] = case["mask"]
+        m = case["mask"]      # written as booleans, 0/1 integers or an integer ndarray: the same mask
+        how = case.get("mask_repr", "bool")
+        cfg_dict["variables"]["mask"] = ([int(b) for b in m] if how == "int" else
+                                         np.array([int(b) for b in m], dtype=np.int64) if how == "ndarray_int" else m)
     if case["gs"] is not None:
         cfg_dict["gradient"]["samplers"] = case["gs"]
     transforms = None
@@ -326,10 +336,44 @@ def _run_eval(case):
         from ropt.transforms.variable_scaler import VariableScaler
         transforms = OptModelTransforms(variables=VariableScaler(np.array(case["scaler"]["scales"], dtype=np.float64),
                                                                  np.array(case["scaler"]["offsets"], dtype=np.float64)))
+    caller_kept = True
+    shared = None
+    if case.get("shared_gradient"):
+        from ropt.config.enopt import GradientConfig
+        with warnings.catch_warnings():
+            warnings.simplefilter("ignore")
+            try:
+                shared = GradientConfig.model_validate(cfg_dict["gradient"])
+            except ValueError as e:
+                return {"rejected": True, "message": str(e)[:200].replace("\n", " | ")}
+
+        def snapshot(g):
+            return ([float(v) for v in np.atleast_1d(g.perturbation_magnitudes)], [int(v) for v in np.atleast_1d(g.perturbation_types)],
+                    [int(v) for v in np.atleast_1d(g.boundary_types)], None if g.samplers is None else [int(v) for v in np.atleast_1d(g.samplers)])
+        before = snapshot(shared)
+        # the caller's other configuration: every finite range widened and shifted, no scaler / another scaler
+        other = {**cfg_dict, "gradient": shared,
+                 "variables": {**cfg_dict["variables"],
+                               "lower_bounds": [lb - 1.0 if math.isfinite(lb) else lb for lb in case["lbs"]],
+                               "upper_bounds": [ub + 2.0 if math.isfinite(ub) else ub for ub in case["ubs"]]}}
+        other_tr = None
+        if transforms is None and len(case["x"]) % 2 == 0:
+            from ropt.transforms import OptModelTransforms
+            from ropt.transforms.variable_scaler import VariableScaler
+            other_tr = OptModelTransforms(variables=VariableScaler(np.full(V, 4.0), np.full(V, 0.5)))
+        with warnings.catch_warnings():
+            warnings.simplefilter("ignore")
+            try:
+                EnOptConfig.model_validate(other, context=other_tr)
+            except ValueError:
+                pass
+        cfg_dict = {**cfg_dict, "gradient": shared}
     with warnings.catch_warnings():
         warnings.simplefilter("ignore")
         try:
             cfg = EnOptConfig.model_validate(cfg_dict, context=transforms)
+            if shared is not None:
+                caller_kept = snapshot(shared) == before
             if case.get("revalidate"):      # a round trip through a dict must not change the magnitudes
                 cfg = EnOptConfig.model_validate(cfg.model_dump())
         except ValueError as e:      # pydantic ValidationError is a ValueError
@@ -359,7 +403,7 @@ def _run_eval(case):
     return {"rejected": False,
             "mags": [float(v) for v in cfg.gradient.perturbation_magnitudes],
             "bts": [int(v) for v in cfg.gradient.boundary_types],
-            "calls": out_calls, "V": V, "mirror_repeat": int(_gradient.MIRROR_REPEAT)}
+            "calls": out_calls, "V": V, "mirror_repeat": int(_gradient.MIRROR_REPEAT), "caller_kept": caller_kept}
 
 
 def run_impl(case):
@@ -396,12 +440,12 @@ def coq_case(case, obs):
     mask = "None" if case["mask"] is None else f"(Some {cq.bs(case['mask'])})"
     scripts = cq.lst(_arr3(s) for s in case["scripts"])
     if obs["rejected"]:
-        o = "true [] []"
+        o = "true true [] []"
     else:
         calls = cq.lst("(Build_ecall {} {} {} {} {} {})".format(
             cq.qs(c["x"]), cq.z(c["mode"]), cq.zs(oc["order"]), cq.qs(oc["res_x"]), _arr3(oc["pert"]),
             cq.lst(cq.qs(r) for r in oc["rows"])) for c, oc in zip(case["calls"], obs["calls"]))
-        o = "false {} {}".format(cq.qs(obs["mags"]), calls)
+        o = "false {} {} {}".format(cq.b(obs.get("caller_kept", True)), cq.qs(obs["mags"]), calls)
     return ("(CEval (Build_ecase {} {} {} {} {} {} {} {} {} {} {} {} {} {}))".format(
         cq.b(case["exact"]), cq.q(S), cq.ers(case["lbs"]), cq.ers(case["ubs"]), cq.qs(sc["scales"]), cq.qs(sc["offsets"]),
         cq.zs(case["bts"]), cq.zs(case["pts"]), cq.qs(case["ms"]), gs, mask, cq.nat(case["R"]), scripts, o))
@@ -507,6 +551,9 @@ def oracle(case, obs):  # noqa: C901, PLR0911, PLR0912
         return None
     if obs["rejected"]:
         return {"clause": "valid-configuration-rejected", "detail": obs.get("message")}
+    if obs.get("caller_kept") is False:
+        return {"clause": "caller-gradient-config-instance-changed",
+                "detail": "validating an EnOptConfig rewrote the GradientConfig instance the caller passed in"}
     V, R, P = len(case["x"]), case["R"], case["P"]
     sc = case.get("scaler") or {"scales": [1.0] * V, "offsets": [0.0] * V}
     scl, off = [_F(v) for v in sc["scales"]], [_F(v) for v in sc["offsets"]]
@@ -599,7 +646,8 @@ def features(case, obs):
             "calls": len(case["calls"]), "first_mode": ["f+g", "f,g(cached)", "g-only"][case["calls"][0]["mode"]],
             "revisit": any(case["calls"][j]["x"] == case["calls"][i]["x"] for j in range(len(case["calls"])) for i in range(j)),
             "scaler": case.get("scaler") is not None,
-            "revalidate": bool(case.get("revalidate")), "x_is_initial": case["calls"][0]["x"] == case["x"],
+            "revalidate": bool(case.get("revalidate")), "shared_gradient_instance": bool(case.get("shared_gradient")),
+            "mask_written_as": case.get("mask_repr", "bool") if case["mask"] is not None else "-", "x_is_initial": case["calls"][0]["x"] == case["x"],
             "nonpositive_magnitude": any(m <= 0 for m in case["ms"]),
             "mixed_none": NONE in case["bts"] and len(set(case["bts"])) > 1,
             "relative_on_fixed_infinite": case["mask"] is not None and len(case["pts"]) == len(case["x"]) and any(
